@@ -17,6 +17,7 @@ reported error, every callback with line >= 1 and readable text (touched under A
 (new, absent, or pre-populated) is dumped through the query API, walked, written, modified (create block, set, get,
 remove, destroy block) and destroyed, with the allocation ledger balanced."""
 import os
+import random
 
 from .. import dump as D
 from .. import gen_cif as GC
@@ -316,6 +317,9 @@ def one_run(ctx, L, data, o, target_kind, policy, i, label, handler=False, chunk
     return res.rc, res.errors, problems
 
 
+NSYSTEMATIC = 4 * len(SNIPPETS)
+
+
 def run_case(ctx, L, i):
     rng = ctx.rng('C03', i)
     label, base = seed_input(rng)
@@ -324,6 +328,15 @@ def run_case(ctx, L, i):
     # 'again': the target already holds what an earlier parse of the same bytes stored (every block a duplicate)
     target_kind = rng.choice(['new', 'new', 'new', 'none', 'none', 'existing', 'existing', 'again'])
     handler = rng.random() < 0.3
+    if i < NSYSTEMATIC:
+        # every recovery fragment on its own, in CIF 2.0 and without magic code, storing and syntax-only, default options
+        sn = SNIPPETS[i // 4]
+        data = (('#\\#CIF_2.0\n' if i % 2 else '') + 'data_s\n_ok 1\n' + sn + '\n_after 2\n').encode('utf-8', 'surrogatepass')
+        label, ops = 'snippet', []
+        o = option_vector(random.Random(0))
+        o.update(prefer_cif2=0, depth=1, fold=0, prefix=0, ws=None, eol=None, encoding=None, force=0)
+        target_kind = 'new' if (i // 2) % 2 else 'none'
+        handler = False
     # one input in three with a handler also steers the parse: a fixed table of navigation answers, indexed by
     # callback number, so that every run of the family gives the same answers
     answers = None
